@@ -37,8 +37,8 @@ TERM_OF = {
     "GeneralVorticityConvectionStepper": "vort2d",
 }
 FORCED = {"KolmogorovFlowVorticity", "KolmogorovFlowVelocity"}          # documented external forcing: zero maps to the forced state (C12)
-K32 = 400.0          # allowed multiple of eps * condition for the float32 session against the exact pivot
-K64 = 4.0e5          # the contour evaluation of the coefficients in float64 is accurate to ~1e-13 relative: 4e5 eps = 1e-10 (as C02)
+K32 = 1500.0          # allowed multiple of eps * condition for the float32 session against the exact pivot
+K64 = 5000.0       # measured worst multiple on the unchanged tree: ~45 in both sessions
 
 
 def ladder(tier, rng):
